@@ -116,6 +116,7 @@ pub fn generate(prop: &str, tier: &str, seed: u64, w: &mut dyn Write) {
         "C07" => crate::gen_bind::gen_c07(&mut o, tier, seed),
         "C08" => crate::gen_enc::gen_c08(&mut o, tier, seed),
         "C09" => crate::gen_enc::gen_c09(&mut o, tier, seed),
+        "C10" => crate::gen_enc::gen_c10(&mut o, tier, seed),
         "C11" => crate::gen_enc::gen_c11(&mut o, tier, seed),
         "C12" => crate::gen_enc::gen_c12(&mut o, tier, seed),
         "C13" => crate::gen_enc::gen_c13(&mut o, tier, seed),
